@@ -604,7 +604,7 @@ pub fn run(ctx: &mut RunCtx) {
     ctx.assume("external ids used by an abandoned transaction are not reused by later transactions of the history (both twins skip them)");
     ctx.assume("C API transactions run on a handle of their own: the Rust handle is dropped before ndb_open and reopened after ndb_close, and the twin database gets the same close + reopen");
     ctx.assume("vector comparison between the twins tolerates a different choice among equal distances at the cut-off; the index stays in the exact regime (<= 33 vectors, M = 16) for almost every case");
-    let cases = ctx.tier.pick(10_000, 150_000);
+    let cases = ctx.tier.pick(40_000, 150_000);
     let max_ops = ctx.tier.pick(14, 30);
     ctx.explore(
         "histories",
